@@ -11,6 +11,10 @@ pub mod c11;
 pub mod c15;
 pub mod c06;
 pub mod c07;
+#[cfg(feature = "full")]
+pub mod c03;
+#[cfg(feature = "full")]
+pub mod c02;
 pub mod c12;
 #[cfg(feature = "full")]
 pub mod common;
@@ -30,6 +34,10 @@ pub fn run(prop: &str, ctx: &Ctx) -> Option<Report> {
         "C15" => Some(c15::run(ctx)),
         "C06" => Some(c06::run(ctx)),
         "C07" => Some(c07::run(ctx)),
+        #[cfg(feature = "full")]
+        "C03" => Some(c03::run(ctx)),
+        #[cfg(feature = "full")]
+        "C02" => Some(c02::run(ctx)),
         "C12" => Some(c12::run(ctx)),
         _ => None,
     }
@@ -46,6 +54,10 @@ pub fn replay(prop: &str, ctx: &Ctx, case: &Value) -> ReplayResult {
         "C15" => c15::replay(ctx, case),
         "C06" => c06::replay(ctx, case),
         "C07" => c07::replay(ctx, case),
+        #[cfg(feature = "full")]
+        "C03" => c03::replay(ctx, case),
+        #[cfg(feature = "full")]
+        "C02" => c02::replay(ctx, case),
         "C12" => c12::replay(ctx, case),
         _ => Err(format!("no replay for property {}", prop)),
     }
